@@ -19,9 +19,21 @@ Typing conventions (the trusted part of this translator):
 """
 import ast
 from common import *
+import failclosed
 
 class Unsupported(Exception):
     pass
+
+# the functions translated / recognised below: one plain definition each (plain_def checks the text, failclosed also the run-time
+# object and the defaults the output does not carry), the library names the real modules (tools/gen/failclosed.py)
+_NOD = {'defaults': {}}
+FAILCLOSED = {'generate': [{'src': 'oslo_utils/timeutils.py', 'mod': 'oslo_utils.timeutils',
+    'functions': {'parse_isotime': _NOD, 'normalize_time': _NOD, 'utcnow': {'defaults': {'with_timezone': 'False'}}, 'is_older_than': _NOD,
+                  'is_newer_than': _NOD, 'utcnow_ts': {'defaults': {'microsecond': 'False'}},
+                  'set_time_override': {'defaults': {'override_time': 'None'}}, 'advance_time_delta': _NOD, 'advance_time_seconds': _NOD,
+                  'clear_time_override': _NOD, 'marshall_now': {'defaults': {'now': 'None'}}, 'unmarshall_time': _NOD,
+                  'delta_seconds': _NOD, 'is_soon': _NOD},
+    'imports': {'datetime': 'datetime', 'iso8601': 'iso8601', 'zoneinfo': 'zoneinfo', 'time': 'time', 'calendar': 'calendar'}}]}
 
 FIELDS7 = ['day', 'month', 'year', 'hour', 'minute', 'second', 'microsecond']
 COQ_TY = {'dt': 'dt', 'td': 'Z', 'secs': 'Z', 'targ': 'targ', 'bool': 'bool', 'int': 'Z', 'num': 'fexp', 'optdt': 'option dt',
@@ -450,6 +462,7 @@ def template(tree, name):
     return coq
 
 def generate():
+    failclosed.check_all(FAILCLOSED['generate'])
     m = repo_import('oslo_utils.timeutils')
     tree = repo_ast('oslo_utils/timeutils.py')
     cap = getattr(m, '_MAX_DATETIME_SEC', None)
